@@ -25,6 +25,10 @@ static void cb(const volatile void *addr, unsigned size, int op, uint64_t o, uin
   unsigned long k=atomic_fetch_add(&nev,1); if(k>=MAXEV) return; evs[k]=(ev_t){atomic_fetch_add(&seq,1),mytid,(uintptr_t)addr,size,op,o,n}; }
 static __thread uint64_t rng; static uint64_t seed;
 static inline uint64_t rnd(void){ if(!rng) rng = seed ^ (uint64_t)syscall(SYS_gettid)*0x9e3779b97f4a7c15ull; rng ^= rng<<13; rng ^= rng>>7; rng ^= rng<<17; return rng; }
+extern void (*_dispatch_verif_yield_cb)(const volatile void *addr, const char *func, int line);
+// perturbation inside the claim / completion protocol of _dispatch_apply_invoke2 (between any two of its atomic operations)
+static void ycb(const volatile void *addr, const char *func, int line){ (void)addr;(void)line;
+  if(strcmp(func,"_dispatch_apply_invoke2")) return; uint64_t r=rnd()%6; if(r==0) sched_yield(); else if(r==1) usleep(rnd()%80); }
 static atomic_int viol; static char vmsg[300];
 static void fail(const char *m, long a, long b, long c){ if(!atomic_exchange(&viol,1)) snprintf(vmsg,sizeof vmsg,"%s %ld %ld %ld",m,a,b,c); }
 struct app { size_t n; _Atomic unsigned char *cnt; _Atomic long finished; _Atomic long running; _Atomic long last; int serial; int kind; int depth; dispatch_queue_t q; _Atomic int *barrier_running; };
@@ -60,7 +64,7 @@ int main(int argc,char**argv){ seed=argc>1?strtoull(argv[1],0,0):1; rounds=argc>
   QS=dispatch_queue_create("s",NULL); QC=dispatch_queue_create("c",DISPATCH_QUEUE_CONCURRENT);
   dispatch_queue_t s2=dispatch_queue_create("s2",NULL); QSS=dispatch_queue_create_with_target("ss",DISPATCH_QUEUE_CONCURRENT,s2);   // concurrent queue targeting a serial one
   dispatch_queue_t c2=dispatch_queue_create("c2",DISPATCH_QUEUE_CONCURRENT); QCC=dispatch_queue_create_with_target("cc",DISPATCH_QUEUE_CONCURRENT,c2);
-  _dispatch_verif_atomic_cb=cb;
+  _dispatch_verif_yield_cb=ycb; _dispatch_verif_atomic_cb=cb;
   pthread_t th[4]; int nt=3; for(int i=0;i<nt;i++) pthread_create(&th[i],0,client,0);
   for(int i=0;i<nt;i++) pthread_join(th[i],0);
   dispatch_barrier_sync(QC,^{});
